@@ -35,8 +35,9 @@ def make_core(nphases=1, memtype="SDR", bankbits=1, rowbits=11, colbits=8, datab
             xb = self.crossbar; orig = xb.do_finalize
             def do_finalize_and_capture():
                 orig()
-                from migen.genlib.roundrobin import RoundRobin
-                xb.verif_arbiters = [m for (_, m) in xb._submodules if isinstance(m, RoundRobin)]
+                # duck-typed (any arbiter implementation with request/grant/ce signals, in creation order = bank order); used only to name the
+                # cause of a starvation lasso, never by an oracle
+                xb.verif_arbiters = [m for (_, m) in xb._submodules if all(hasattr(m, a) for a in ("request", "grant", "ce"))]
             xb.do_finalize = do_finalize_and_capture
             xb.finalize()
             self.dfi = self.controller.dfi
